@@ -13,6 +13,10 @@ Print Assumptions C20_sites.
 (* the objects held in those tables (XSDAttribute, XSDTree, XSDElement, XSDGroup instances) fill some of their own fields lazily: EVERY
    `if self.a is None: ...` of the library that stores self.a does so with ONE store of the final value on every path (or, in a loop,
    one store of a complete value per iteration): no default-then-overwrite, no fill after publication *)
+(* consumers only READ the shared class-level tables: no function of the library mutates in place (sort, append, item assignment, ...) a value it
+   obtained from a table getter (get_xsd_attributes, ...) - read from the source on every run *)
+Theorem C20_tables_read_only : shared_table_mutations = [].
+Proof. reflexivity. Qed.
 Theorem C20_instance_caches : forall s, In s lazy_instance_stores -> (let '(_, _, _, _, sh) := s in match sh with LUnsafe => false | _ => true end) = true.
 Proof. apply forallb_forall. vm_compute. reflexivity. Qed.
 Print Assumptions C20_instance_caches.
